@@ -840,3 +840,111 @@ def random_sunder(rng: random.Random) -> str:
     n = rng.choice([1, 1, 2, 3, 4])
     inner = "".join(rng.choice("aAzZ019x") for _ in range(n))
     return "_" + inner + "_"
+
+
+# ------------------------------------------------ repeated composite field in one selection-set scope (C04-F27)
+def repeated_composite_fields(schema, doc) -> list:
+    """[(root type, response key)]: a selection-set scope - after unpacking fragment spreads and inline fragments
+    the way ResultTypesGenerator._resolve_selection_set collects the fields of one class - that contains the same
+    response key for a COMPOSITE field (one with a sub-selection) more than once with differing sub-selections.
+    GraphQL merges such fields; the generator does not (each occurrence generates its own variant classes).
+    Spreads that become base classes (not unpacked) are not part of the scope."""
+    from graphql import GraphQLInterfaceType, GraphQLObjectType, GraphQLUnionType, get_named_type
+
+    frags = {d.name.value: d for d in doc.definitions if isinstance(d, FragmentDefinitionNode)}
+    out, seen = [], set()
+
+    def has_cond(node):
+        return any(d.name.value in ("skip", "include") for d in (node.directives or ()))
+
+    def inline_root(tc, root):
+        t = schema.get_type(root)
+        if isinstance(t, (GraphQLObjectType, GraphQLInterfaceType)) and tc in {i.name for i in t.interfaces}:
+            return tc
+        return root if tc == root else None
+
+    def collect(selset, root, under, depth=0):
+        fields = []
+        if depth > 12:
+            return fields
+        for s in selset.selections:
+            if isinstance(s, FieldNode):
+                fields.append(s)
+            elif isinstance(s, FragmentSpreadNode):
+                f = frags.get(s.name.value)
+                if f is None:
+                    continue
+                on = f.type_condition.name.value
+                ft, rt = schema.get_type(on), schema.get_type(root)
+                cond = under or has_cond(s)
+                unpack = (cond or isinstance(ft, GraphQLUnionType) or on != root
+                          or any(isinstance(x, InlineFragmentNode) for x in f.selection_set.selections))
+                if not unpack:
+                    continue  # used as a base class: its fields are not fields of this class
+                if on == root or (ft is not None and rt is not None and is_abstract_type(ft) and schema.is_sub_type(ft, rt)):
+                    fields += collect(f.selection_set, root, cond, depth + 1)
+            elif isinstance(s, InlineFragmentNode):
+                r = inline_root(s.type_condition.name.value if s.type_condition else root, root)
+                if r:
+                    fields += collect(s.selection_set, r, under or has_cond(s), depth + 1)
+        return fields
+
+    def variant_types(selset, t, depth=0):
+        """type conditions that get a variant class at an interface position (inline fragments, also through
+        spreads; spreads on sub types), minus the interface's own interfaces"""
+        names = []
+        if depth > 12:
+            return names
+        for s in selset.selections:
+            if isinstance(s, InlineFragmentNode):
+                if s.type_condition is None:
+                    names += variant_types(s.selection_set, t, depth + 1)
+                else:
+                    names.append(s.type_condition.name.value)
+            elif isinstance(s, FragmentSpreadNode) and s.name.value in frags:
+                f = frags[s.name.value]
+                names += variant_types(f.selection_set, t, depth + 1)
+                ft = schema.get_type(f.type_condition.name.value)
+                if ft is not None and ft is not t and schema.is_sub_type(t, ft):
+                    names.append(ft.name)
+        own = {i.name for i in t.interfaces}
+        return [n for n in names if n not in own]
+
+    def scope(selset, root, depth=0):
+        key = (id(selset), root)
+        if key in seen or depth > 12:
+            return
+        seen.add(key)
+        rt = schema.get_type(root)
+        fields = collect(selset, root, False)
+        by_key: dict = {}
+        for f in fields:
+            if f.selection_set:
+                by_key.setdefault(f.alias.value if f.alias else f.name.value, []).append(f)
+        for k, nodes in by_key.items():
+            if len(nodes) > 1 and len({print_ast(n.selection_set) for n in nodes}) > 1:
+                out.append((root, k))
+        for f in fields:
+            if not f.selection_set or not hasattr(rt, "fields") or f.name.value not in rt.fields:
+                continue
+            t = get_named_type(rt.fields[f.name.value].type)
+            if isinstance(t, GraphQLObjectType):
+                roots = [t.name]
+            elif isinstance(t, GraphQLUnionType):
+                roots = [m.name for m in t.types]
+            elif isinstance(t, GraphQLInterfaceType):
+                roots = [t.name] + sorted(set(variant_types(f.selection_set, t)))
+            else:
+                continue
+            for r in roots:
+                scope(f.selection_set, r, depth + 1)
+
+    for d in doc.definitions:
+        if isinstance(d, OperationDefinitionNode):
+            root = {"query": schema.query_type, "mutation": schema.mutation_type,
+                    "subscription": schema.subscription_type}[d.operation.value]
+            if root is not None:
+                scope(d.selection_set, root.name)
+        elif isinstance(d, FragmentDefinitionNode):
+            scope(d.selection_set, d.type_condition.name.value)
+    return out
